@@ -64,6 +64,8 @@ REWRITES = {
     "static_str_const": ("re", r"(const\s+\w+\s*:\s*)&str", r"\1&'static str", "Verus treats consts as functions"),
     # per-site
     "as_ref_on_mut_reference": ("re", r"(\b\w+)\.as_ref\(\)", r"Reference::as_ref(&*\1)", "x.as_ref() on &mut Reference<T> resolves to the std blanket impl `<&mut T as AsRef<U>>::as_ref`, whose body is exactly this call"),
+    "usize_to_isize_expect": ("re", r"(let \w+: isize = )([\w\.]+)\.try_into\(\)\.expect\((\"[^\"]*\")\);", r"\1usize_to_isize_expect(\2, \3);", "TryFrom<usize> for isize has no vstd spec; shim = `x.try_into().expect(msg)`, panics iff x > isize::MAX"),
+    "isize_to_usize_expect": ("re", r"(let \w+: usize = )(\([^;]*?\))\.try_into\(\)\.expect\((\"[^\"]*\")\);", r"\1isize_to_usize_expect(\2, \3);", "TryFrom<isize> for usize has no vstd spec; shim = `x.try_into().expect(msg)`, panics iff x < 0"),
     "drop_const_fn": ("re", r"\bconst fn\b", "fn", "const fn that calls non-const shim"),
 }
 
@@ -170,8 +172,10 @@ def parse_seg(seg):
     for k in ("fn", "struct", "enum", "trait", "const", "type"):
         if seg.startswith(k + " "):
             return (k, seg[len(k) + 1:].strip())
-    if seg.startswith("impl ") or seg == "impl":
+    if seg.startswith("impl ") or seg.startswith("impl<"):
         return ("impl", rscan.norm(seg[4:]))
+    if seg.startswith("derive "):
+        return ("derive", seg[len("derive "):].strip())
     if seg.startswith("closure "):
         p = seg[len("closure "):].strip()
         if not (p.startswith("|") and p.endswith("|")):
@@ -242,6 +246,48 @@ def panic_sites(text):
     return {k: len(re.findall(p, body)) for k, p in PANIC_PATTERNS if re.findall(p, body)}
 
 
+def derive_impl(item_text, trait, name):
+    """what spl_frontend_macros generates for #[derive(ToRange)] / #[derive(ToTextRange)] on this struct/enum"""
+    toks = rscan.tokenize(item_text)
+    # the derive attribute must really be there
+    dm = re.search(r"#\[derive\(([^\]]*)\)\]", item_text)
+    if not dm or trait not in [x.strip() for x in dm.group(1).split(",")]:
+        raise LostAnchor(f"{name} does not derive {trait}")
+    kw = next(i for i, t in enumerate(toks) if t.kind == "id" and t.text in ("struct", "enum"))
+    call = {"ToRange": "info.to_range()", "ToTextRange": "info.to_text_range(tokens)"}[trait]
+    sig = {"ToRange": "fn to_range(&self) -> std::ops::Range<usize>", "ToTextRange": "fn to_text_range(&self, tokens: &[Token]) -> std::ops::Range<usize>"}[trait]
+    if toks[kw].text == "struct":
+        body = "        self." + call
+    else:
+        bo = next(i for i in range(kw, len(toks)) if toks[i].kind == "open" and toks[i].text == "{")
+        bc = toks[bo].mate
+        arms = []
+        i = bo + 1
+        while i < bc:
+            t = toks[i]
+            if t.text == "#":
+                i = toks[i + 1].mate + 1
+                continue
+            if t.kind == "id":
+                vname = t.text
+                nxt = toks[i + 1]
+                if nxt.kind == "open" and nxt.text == "(":
+                    inner = [x for x in range(i + 2, nxt.mate) if toks[x].text == "," and True]
+                    arms.append(f"            Self::{vname}(info) => {call},")
+                    i = nxt.mate + 1
+                elif nxt.kind == "open" and nxt.text == "{":
+                    arms.append(f"            Self::{vname} {{ info, .. }} => {call},")
+                    i = nxt.mate + 1
+                else:
+                    raise LostAnchor(f"derive({trait}) is not defined for unit variant {vname}")
+                if i < bc and toks[i].text == ",":
+                    i += 1
+                continue
+            i += 1
+        body = "        match self {\n" + "\n".join(arms) + "\n        }"
+    return f"impl {trait} for {name} {{\n    {sig} {{\n{body}\n    }}\n}}"
+
+
 class Block:
     def __init__(self, file, path, tline):
         self.file, self.path, self.tline = file, path, tline
@@ -299,6 +345,10 @@ def process_template(tpath, out_lines, meta, origin_stack=None):
 
 def emit_block(blk, rel, out_lines, meta):
     segs = [parse_seg(p) for p in blk.path]
+    derive = None
+    if segs and segs[0][0] == "derive":
+        derive = segs[0][1]
+        segs = segs[1:]
     r = resolve(blk.file, segs)
     src = r.src
     record = {"file": blk.file, "path": " :: ".join(blk.path), "rewrites": [], "insertions": 0}
@@ -331,6 +381,11 @@ def emit_block(blk, rel, out_lines, meta):
             wrap_head = src[r.toks[outer.head_tok].start:r.toks[outer.body_open].start].strip()
             if outer.kind == "trait":
                 raise LostAnchor("extract a trait as a whole")
+    if derive is not None:
+        text = derive_impl(text, derive, r.item.name)
+        record["rewrites"].append({"rewrite": "R5 derive expansion", "why": f"#[derive({derive})] expanded as spl_frontend_macros generates it (proc-macro output is invisible to a text extractor)", "sites": [{"to": text}]})
+        r.kind = "impl"
+        wrap_head = None
     source_text = text
     record["panic_sites"] = panic_sites(text) if r.kind in ("fn", "closure", "impl") else {}
     # ---- rewrites
